@@ -103,8 +103,15 @@ def _post_cfg(post, key):
     return out
 
 
+# utt -> largest |feature| BEFORE post-processing when the torch tool's own computer module produced it (its window and
+# filters are single-precision parameters: "to float32 precision" then refers to that scale, which a mean-removing
+# post-processor can make much larger than the stored values); 0 otherwise
+_PRE_POST_SCALE = {}
+
+
 def _reference(case, samples_by_utt):
     """utt -> float32 matrix, or raises Discard when the reference pipeline itself fails."""
+    _PRE_POST_SCALE.clear()
     comp = None
     if case["comp"] is not None:
         spec = case["comp"]
@@ -126,6 +133,8 @@ def _reference(case, samples_by_utt):
             for p in pres:
                 x = p.apply(x)
             feats = x[:, None] if comp is None else comp.compute_full(x)
+            if comp is not None and posts and case["tool"] == "torch" and np.size(feats):
+                _PRE_POST_SCALE[utt] = float(np.max(np.abs(feats)))
             for q in posts:
                 feats = q.apply(feats)
         except Discard:
@@ -185,7 +194,7 @@ def _compare(utt, got, ref, kaldi):
         return
     g, r = got.astype(np.float64), ref.astype(np.float64)
     require(np.all(np.isfinite(g)), "{}: non-finite stored values", utt)
-    tol = 2e-4 * np.abs(r) + 2e-5 * float(np.max(np.abs(r))) + 1e-6
+    tol = 2e-4 * np.abs(r) + 2e-5 * float(np.max(np.abs(r))) + 1e-6 + 32 * 6e-8 * _PRE_POST_SCALE.get(utt, 0.0)
     bad = np.abs(g - r) > tol
     if np.any(bad):
         k = tuple(np.argwhere(bad)[0])
@@ -514,7 +523,9 @@ _post_st = st.lists(st.one_of(
 
 def _comp_st(rate):
     bank = bank_specs(rates=[rate], max_filts=3, allow_l2="gabor")
-    return st.one_of(stft_specs(bank=bank, max_len=40), stft_specs(bank=bank, max_len=40), si_specs(bank=bank))
+    # (a fourth of the computers: centered frames with kaldi_shift, where the left padding depends on the parities of length and shift)
+    return st.one_of(stft_specs(bank=bank, max_len=40), stft_specs(bank=bank, max_len=40), si_specs(bank=bank),
+                     stft_specs(bank=bank, max_len=40).map(lambda c: dict(c, frame_style="centered", kaldi_shift=True)))
 
 
 @st.composite
@@ -573,8 +584,18 @@ def _torch_cases(draw):
             u["n"] = max(u["n"], 1)
         utts.append(u)
     syn = draw(st.sampled_from(["inline", "json", "yaml"]))
+    pre, post = draw(_pre_st), draw(_post_st)
+    if draw(st.integers(0, 7)) == 0:
+        # raw samples with a large offset, then a mean-removing post-processor: the pipeline before the final cast
+        # needs double precision, and without a computer module nothing but that cast is single precision
+        comp = None
+        post = [{"alias": "standardize", "norm_var": draw(st.booleans())}] + post[:1]
+        for u in utts:
+            if u["container"] != "wav":
+                u["dc"] = draw(st.sampled_from([2e4, -5e3, 1e5]))
+                u["n"] = max(u["n"], 8)
     return {
-        "tool": "torch", "rate": rate, "comp": comp, "pre": draw(_pre_st), "post": draw(_post_st), "utts": utts,
+        "tool": "torch", "rate": rate, "comp": comp, "pre": pre, "post": post, "utts": utts,
         "channel": channel, "syntax": syn, "other_syntax": draw(st.sampled_from([None, None, None, "inline", "json", "yaml"])),
         "alias_key": draw(st.sampled_from(["alias", "name"])), "seed": draw(st.one_of(st.none(), st.integers(0, 1000))),
         # (ids listed in the manifest: a drawn subset, or the ids that contain other ids as substrings)
